@@ -12,3 +12,64 @@ pub fn request_identifier(t: NtpTimestamp, uid: Option<[u8; 32]>) -> RequestIden
 pub fn request_identifier_parts(id: RequestIdentifier) -> (NtpTimestamp, Option<[u8; 32]>) {
     (id.expected_origin_timestamp, id.uid)
 }
+
+// ---- C23/C24/C25 (np_packet_h): raw constructor / field getters for NtpPacket.
+pub use super::{ExtensionField as Ef, NtpHeader as Header};
+pub fn packet_from_parts<'a>(
+    header: NtpHeader,
+    authenticated: Vec<ExtensionField<'a>>,
+    encrypted: Vec<ExtensionField<'a>>,
+    untrusted: Vec<ExtensionField<'a>>,
+) -> NtpPacket<'a> {
+    NtpPacket { header, efdata: ExtensionFieldData { authenticated, encrypted, untrusted }, mac: None }
+}
+pub fn packet_authenticated<'a, 'b>(p: &'b NtpPacket<'a>) -> &'b [ExtensionField<'a>] {
+    &p.efdata.authenticated
+}
+pub fn packet_encrypted<'a, 'b>(p: &'b NtpPacket<'a>) -> &'b [ExtensionField<'a>] {
+    &p.efdata.encrypted
+}
+pub fn packet_untrusted<'a, 'b>(p: &'b NtpPacket<'a>) -> &'b [ExtensionField<'a>] {
+    &p.efdata.untrusted
+}
+pub fn packet_mac_parts<'a, 'b>(p: &'b NtpPacket<'a>) -> Option<(u32, &'b [u8])> {
+    p.mac.as_ref().map(super::mac::verif_hooks::mac_parts)
+}
+
+// ---- C05 (np_algo_h): a V3/V4 packet from raw header fields (no extension fields, no MAC).
+#[allow(clippy::too_many_arguments)]
+pub fn packet_v3v4_from_raw(
+    v3: bool,
+    leap: NtpLeapIndicator,
+    mode: NtpAssociationMode,
+    stratum: u8,
+    poll: PollInterval,
+    precision: i8,
+    root_delay: NtpDuration,
+    root_dispersion: NtpDuration,
+    reference_id: ReferenceId,
+    reference_timestamp: NtpTimestamp,
+    origin_timestamp: NtpTimestamp,
+    receive_timestamp: NtpTimestamp,
+    transmit_timestamp: NtpTimestamp,
+) -> NtpPacket<'static> {
+    let header = NtpHeaderV3V4 {
+        leap,
+        mode,
+        stratum,
+        poll,
+        precision,
+        root_delay,
+        root_dispersion,
+        reference_id,
+        reference_timestamp,
+        origin_timestamp,
+        receive_timestamp,
+        transmit_timestamp,
+    };
+    NtpPacket {
+        header: if v3 { NtpHeader::V3(header) } else { NtpHeader::V4(header) },
+        efdata: ExtensionFieldData::default(),
+        mac: None,
+    }
+}
